@@ -98,34 +98,40 @@ def drainLoop : Nat → DM Unit
     let irq ← rread REGIRQFLAGS2
     if irq &&& u8 SX127X_FSK_IRQ_FIFO_EMPTY = 0 then drainLoop fuel else pure ()
 
-/-- first half of `sx127x_fsk_ook_read_payload_batch` (l.294-328): learn the length.
-    Returns how many FIFO bytes the header took, i.e. how often `remaining_fifo--` ran. -/
-def readPayloadHeader : DM Nat := do
+/-- first half of `sx127x_fsk_ook_read_payload_batch`: learn the length.  Configuration registers
+    are read first, then length byte and node id leave the FIFO in one transfer, and only then is
+    the handle updated: a failing transfer leaves no partial state.  Returns how many FIFO bytes
+    the header took (`remaining_fifo -= header_length`); `none` = unknown packet format
+    (`return SX127X_OK` from the whole function). -/
+def readPayloadHeader : DM (Option Nat) := do
   let h ← getH
-  if h.expected ≠ 0 then pure 0 else
+  if h.expected ≠ 0 then pure (some 0) else
+  let af ← fskOokIsAddressFiltered
   if h.format = SX127X_FIXED then do
     let len ← fskOokReadFixedPacketLength
+    let n : Nat := if af then 1 else 0
+    if n > 0 then do
+      let _ ← bread REGFIFO n
+      pure ()
+    else pure ()
+    let len := if af ∧ len > 0 then len - 1 else len
     modH fun h => { h with expected := len }
-    let af ← fskOokIsAddressFiltered
-    if af then do
-      let _ ← rread REGFIFO
-      modH fun h => { h with expected := if h.expected > 0 then h.expected - 1 else h.expected }
-      pure 1
-    else pure 0
+    pure (some n)
   else if h.format = SX127X_VARIABLE then do
-    let v ← rread REGFIFO
-    modH fun h => { h with expected := v.toUInt16 }
-    let af ← fskOokIsAddressFiltered
-    if af then do
-      let _ ← rread REGFIFO
-      modH fun h => { h with expected := if h.expected > 0 then h.expected - 1 else h.expected }
-      pure 2
-    else pure 1
-  else fail voidReturn
+    let n : Nat := if af then 2 else 1
+    let hdr ← bread REGFIFO n
+    let len : UInt16 := (hdr.getD 0 0).toUInt16
+    let len := if af ∧ len > 0 then len - 1 else len
+    modH fun h => { h with expected := len }
+    pure (some n)
+  else pure none
 
-/-- `sx127x_fsk_ook_read_payload_batch` (a `void` function: failure = early `return`) -/
+/-- `sx127x_fsk_ook_read_payload_batch`: fails with the status of the transfer that failed -/
 def fskOokReadPayloadBatch (fuel : Nat) (readBatch : Bool) : DM Unit := do
-  let consumed ← readPayloadHeader
+  let hdr ← readPayloadHeader
+  match hdr with
+  | none => pure ()
+  | some consumed => do
   let remaining : Nat := FIFO_SIZE_FSK - consumed     -- `uint8_t remaining_fifo`
   let h ← getH
   if h.expected = h.received then pure () else
@@ -173,8 +179,13 @@ def fskOokHandleInterrupt (fuel : Nat) : DM Unit := do
     if h.crcType ≠ SX127X_CRC_NONE ∧ irq &&& u8 SX127X_FSK_IRQ_CRC_OK ≠ u8 SX127X_FSK_IRQ_CRC_OK then
       swrite REGIRQFLAGS2 [u8 SX127X_FSK_IRQ_FIFO_OVERRUN]
     else do
-      let _ ← attempt (fskOokReadPayloadBatch fuel false)
-      rxCallback
+      let r ← attempt (fskOokReadPayloadBatch fuel false)
+      match r with
+      | .ok _ => rxCallback
+      | .error _ =>
+        -- the packet cannot be completed: drop what is left of it (if this write fails too, the
+        -- handler returns with its state kept and the next invocation continues reading)
+        swrite REGIRQFLAGS2 [u8 SX127X_FSK_IRQ_FIFO_OVERRUN]
     modH resetState
   else if irq &&& u8 SX127X_FSK_IRQ_PACKET_SENT ≠ 0 then do
     modH resetState
